@@ -245,7 +245,33 @@ pub fn gen_zip_opts(dna: &mut Dna) -> ZipOpts {
 pub fn wrap_zip(out: &mut Vec<u8>, o: &ZipOpts, stream: &[u8], plain: &[u8], m: &mut Mix) -> (usize, usize) {
     let hdr_off = out.len();
     let crc = crc32fast::hash(plain);
-    let name: Vec<u8> = (0..o.name_len).map(|_| b'a' + (m.below(26) as u8)).collect();
+    // member names: ASCII, legacy code pages (any byte >= 0x80: not valid UTF-8 in general), or
+    // valid multi-byte UTF-8
+    let name_style = m.below(10);
+    let mut name: Vec<u8> = Vec::with_capacity(o.name_len);
+    while name.len() < o.name_len {
+        match name_style {
+            0..=4 => name.push(b'a' + (m.below(26) as u8)),
+            5..=7 => {
+                if m.chance(35) {
+                    name.push(0x80 + m.below(128) as u8);
+                } else {
+                    name.push(b'a' + (m.below(26) as u8));
+                }
+            }
+            8 => {
+                let ch = ['\u{e9}', '\u{fc}', '\u{4e2d}', '\u{1f600}', 'x', '/', '.'][m.below(7)];
+                let mut buf = [0u8; 4];
+                let enc = ch.encode_utf8(&mut buf).as_bytes();
+                if name.len() + enc.len() <= o.name_len {
+                    name.extend_from_slice(enc);
+                } else {
+                    name.push(b'_');
+                }
+            }
+            _ => name.push(safe_junk_byte(m)),
+        }
+    }
     let extra: Vec<u8> = (0..o.extra_len).map(|_| m.u8()).collect();
     let flag: u16 = if o.data_descriptor { 8 } else { 0 };
     out.extend_from_slice(&0x04034b50u32.to_le_bytes());
